@@ -1126,6 +1126,7 @@ def run_adv_cases(chk, cases):
         chk.count("advance:S=" + ("0" if c["S"] == 0 else ">0"))
         chk.count("advance:width" + ("=0" if c["width"] == 0 else "<=KpV" if c["width"] <= c["Kp"] * c["V"] else ">KpV"))
     chk.extra["advance_model_disagreements"] = len(bad)
+    source_tie(chk, cases, results, terms)
     for i in bad:
         chk.count("advance:failing:layout=%d,f32=%s,call=%s" % (cases[i].get("layout", 0), bool(cases[i].get("f32")), cases[i].get("call", "pos")))
     for i in bad[:2]:
@@ -1152,6 +1153,61 @@ def run_adv_cases(chk, cases):
                             "beam_search_advance differs from the model on finite-score slots (top-k over joint scores, "
                             "prefix gathered by source index, token written at the prefix length, length + 1, -inf filler)",
                     "correspondence": "corr:C04:beam_search_advance", "theorems_at_stake": THEOREMS})
+
+
+# ----------------------------------------------------------------------------------------------------
+# source tie: the Python text of beam_search_advance, translated to MiniPy (harness/py2coq) and interpreted in Coq
+# (PV.C04.SrcRun.src_advance_check; torch calls = PV.MiniTorch.OpsC04, torch.topk = the model's stable top-k),
+# against the implementation's output on the advance cases of this run
+# ----------------------------------------------------------------------------------------------------
+IMPORTS_SRC = IMPORTS + "From PV Require C04.SrcRun.\n"
+SRC_THEOREMS = ["c04_source_advance_is_model", "c04_source_advance_refines_model", "c04_source_advance_check_is_check",
+                "c04_source_advance_is_tensor_program", "c04_source_advance_raises_not_3d", "c04_source_advance_sorted"]
+
+
+def _adv_wf(c):
+    """Tie.wf_adv of the case (the hypothesis of the c04_source_advance_* theorems)"""
+    return c["N"] >= 1 and c["Kp"] >= 1 and c["V"] >= 1 and (
+        c["lens"] is None or c["S"] == 0 or all(0 <= x <= c["S"] for r in c["lens"] for x in r))
+
+
+def source_tie(chk, cases, results, terms):
+    """run the translated source inside Coq (vm_compute) on the advance cases of this run, same literal as the model term:
+    validates translator + MiniPy.Interp + ext04 + MiniTorch.OpsC04 (incl. the topk oracle) against torch; independent of
+    whether the tie lemmas still compile"""
+    import time
+    from vlib import CoqError
+    idx = [i for i, (r, t) in enumerate(zip(results, terms)) if t != "false" and not (isinstance(r, dict) and "exc" in r)]
+    if not idx:
+        chk.extra["source_tie_run"] = {"cases": 0, "disagreements": 0}
+        return
+    sterms = ["SrcRun." + terms[i].replace("check_advance", "src_advance_check", 1) for i in idx]
+    t0 = time.time()
+    try:
+        res = coq_eval_bools(chk.workdir, IMPORTS_SRC, sterms, shard=60, tag="srcadv")
+    except CoqError as e:
+        chk.extra["source_tie_run"] = "not evaluated: " + str(e)[-400:]
+        return
+    bad = [idx[j] for j, ok in enumerate(res) if not ok]
+    chk.extra["source_tie_run"] = {
+        "cases": len(idx), "disagreements": len(bad), "wall_s": round(time.time() - t0, 1),
+        "well_formed": sum(1 for i in idx if _adv_wf(cases[i])),
+        "runtime_error": sum(1 for i in idx if results[i] is None),
+        "with_lens": sum(1 for i in idx if cases[i]["lens"] is not None),
+        "t0": sum(1 for i in idx if cases[i]["S"] == 0),
+        "padded": sum(1 for i in idx if cases[i]["width"] > cases[i]["Kp"] * cases[i]["V"]),
+        "pruned": sum(1 for i in idx if 0 < cases[i]["width"] < cases[i]["Kp"] * cases[i]["V"])}
+    chk.count("source_tie_cases", len(idx))
+    if bad:
+        i = bad[0]
+        chk.report({"case": cases[i], "impl": results[i],
+                    "what": "the Python source of beam_search_advance as translated to MiniPy and interpreted in Coq "
+                            "(PV.C04.SrcRun.src_advance, torch calls = PV.MiniTorch.OpsC04, topk = the model's stable top-k) does "
+                            "not reproduce the implementation's output: translator / interpreter / ext04 / MiniTorch / the topk "
+                            "oracle no longer describe the code",
+                    "disagreeing_cases": len(bad),
+                    "correspondence": "tie:C04:py2coq+MiniPy.Interp+MiniTorch:beam_search_advance",
+                    "theorems_at_stake": SRC_THEOREMS}, no_failing_input=True)
 
 
 def adv_show(case):
